@@ -44,7 +44,7 @@ type verdict struct {
 // runImpl plays the history on the real code.
 func runImpl(cs Case) (tr trace, v *verdict) {
 	var im *Impl
-	msg, p := rig.Recover(func() { im = newImpl(cs.Shards, cs.Store) })
+	msg, p := rig.Recover(func() { im = newImpl(cs.Shards, cs.Store, cs.Wire) })
 	if p {
 		return tr, &verdict{kind: "diff", class: "c18.rig-panic", what: "building the rateLimiter panicked: " + msg}
 	}
@@ -98,7 +98,7 @@ func modelOps(cs Case, tr trace) []map[string]interface{} {
 		if k < len(tr.quotas) {
 			q, st = tr.quotas[k], tr.sts[k]
 		}
-		ops[k] = modelOp(op, q, st)
+		ops[k] = modelOp(op, q, st, k < len(tr.steps) && tr.steps[k].Out.K == "err" && tr.steps[k].Out.E == "wire")
 	}
 	return ops
 }
@@ -134,13 +134,29 @@ func check(c *rig.Ctx, cs Case) (*verdict, trace) {
 	for _, s := range tr.steps {
 		states = append(states, s.State)
 	}
-	var jr struct {
+	type judged struct {
 		Violations []struct {
 			Step  int    `json:"step"`
 			Class string `json:"class"`
 		} `json:"violations"`
 	}
-	if err := c.Model("C18.judge", map[string]interface{}{"shards": cs.Shards, "ops": ops, "oks": tr.oks, "states": states}, &jr); err != nil {
+	if cs.Wire {
+		// The property as a gateway sees it: the same judge, but "has a heartbeat entry" is replaced by what the clients
+		// DID - an instance is live while its last heartbeat request (served by the endpoint) is younger than the time-out
+		// at the passes. Whatever the endpoints do to an id, a heartbeating instance is never reclaimed, a silent one is.
+		cv := clientView(cs, tr, states)
+		var jc judged
+		if err := c.Model("C18.judge", map[string]interface{}{"shards": cs.Shards, "ops": ops, "outs": outsOf(tr), "states": cv}, &jc); err != nil {
+			return &verdict{kind: "diff", class: "c18.judge-error", what: "judge: " + err.Error()}, tr
+		}
+		if len(jc.Violations) > 0 {
+			x := jc.Violations[0]
+			return &verdict{step: x.Step, kind: "judge", class: x.Class, what: fmt.Sprintf("%s (heartbeats as the clients sent them) at op %d %s", x.Class, x.Step, describe(cs.Ops[x.Step])),
+				impl: map[string]interface{}{"before": cv[x.Step], "after": cv[x.Step+1]}}, tr
+		}
+	}
+	var jr judged
+	if err := c.Model("C18.judge", map[string]interface{}{"shards": cs.Shards, "ops": ops, "outs": outsOf(tr), "states": states}, &jr); err != nil {
 		return &verdict{kind: "diff", class: "c18.judge-error", what: "judge: " + err.Error()}, tr
 	}
 	if len(jr.Violations) > 0 {
@@ -184,6 +200,65 @@ func check(c *rig.Ctx, cs Case) (*verdict, trace) {
 		}
 	}
 	return nil, tr
+}
+
+var timeoutMs int64
+
+// clientView: the observed states with the heartbeat table replaced by the one the clients' own actions define.
+func clientView(cs Case, tr trace, states []StateJ) []StateJ {
+	res := make([]StateJ, len(states))
+	table := map[string]int64{}
+	snap := func() []HbEntry {
+		l := []HbEntry{}
+		for i, t := range table {
+			l = append(l, HbEntry{I: i, T: t})
+		}
+		sort.Slice(l, func(a, b int) bool { return l[a].I < l[b].I })
+		return l
+	}
+	res[0] = states[0]
+	res[0].Hb = snap()
+	for k, op := range cs.Ops {
+		if k >= len(tr.steps) {
+			break
+		}
+		switch {
+		case op.Op == "heartbeat" && tr.steps[k].Out.K != "err":
+			table[op.I] = op.T
+		case op.Op == "cleanupTimeout":
+			for i, t := range table {
+				if op.Now > t+timeoutMs {
+					delete(table, i)
+				}
+			}
+		}
+		res[k+1] = states[k+1]
+		res[k+1].Hb = snap()
+	}
+	return res
+}
+
+// outsOf: the answers of the real code, as the judge reads them.
+func outsOf(tr trace) []map[string]interface{} {
+	res := make([]map[string]interface{}, len(tr.steps))
+	for k, s := range tr.steps {
+		o := s.Out
+		m := map[string]interface{}{"k": o.K}
+		switch o.K {
+		case "err":
+			m["e"] = o.E
+		case "reported":
+			m["label"] = o.Label
+		case "acquired":
+			rs := o.Rs
+			if rs == nil {
+				rs = []AcqRes{}
+			}
+			m["rs"] = rs
+		}
+		res[k] = m
+	}
+	return res
 }
 
 func judgeAPI(cs Case, tr trace, states []StateJ) *verdict {
@@ -238,7 +313,7 @@ func firstDiff(m, i StateJ) string {
 // features of a history, from what the real code did: used for the non-triviality rule and the histogram.
 type features struct {
 	reclaimTimeout, reclaimUnknown, liveSurvived, upstreamDeleted, storeDropped, returned, rejected, tooOld bool
-	refused, oob, burstState, reclaimAfterNotFound                                                       bool
+	refused, oob, burstState, reclaimAfterNotFound, wireRefused, wireServed                              bool
 	ops                                                                                                map[string]int
 }
 
@@ -346,8 +421,13 @@ func featuresOf(cs Case, tr trace) features {
 		if op.Op == "heartbeat" && gone[op.I] {
 			f.returned = true
 		}
-		if st.Out.K == "err" {
+		if st.Out.K == "err" && st.Out.E == "wire" {
+			f.wireRefused = true
+		} else if st.Out.K == "err" {
 			f.rejected = true
+		}
+		if cs.Wire && (st.Out.K == "reported" || st.Out.K == "acquired") {
+			f.wireServed = true
 		}
 		for _, r := range st.Out.Rs {
 			if r.Err == "tooOld" {
@@ -388,13 +468,13 @@ func fails(c *rig.Ctx, cs Case, class string) bool {
 }
 
 func shrink(c *rig.Ctx, cs Case, class string) Case {
-	cs.Ops = rig.ShrinkList(cs.Ops, func(l []Op) bool { return fails(c, Case{Shards: cs.Shards, Store: cs.Store, Ops: l}, class) })
+	cs.Ops = rig.ShrinkList(cs.Ops, func(l []Op) bool { return fails(c, Case{Shards: cs.Shards, Store: cs.Store, Wire: cs.Wire, Ops: l}, class) })
 	// simplify the surviving reports and acquires
 	for k := range cs.Ops {
 		if len(cs.Ops[k].Items) > 1 {
 			k := k
 			cs.Ops[k].Items = rig.ShrinkList(cs.Ops[k].Items, func(l []RItem) bool {
-				x := Case{Shards: cs.Shards, Store: cs.Store, Ops: append([]Op{}, cs.Ops...)}
+				x := Case{Shards: cs.Shards, Store: cs.Store, Wire: cs.Wire, Ops: append([]Op{}, cs.Ops...)}
 				x.Ops[k].Items = l
 				return fails(c, x, class)
 			})
@@ -402,7 +482,7 @@ func shrink(c *rig.Ctx, cs Case, class string) Case {
 		if len(cs.Ops[k].Reqs) > 1 {
 			k := k
 			cs.Ops[k].Reqs = rig.ShrinkList(cs.Ops[k].Reqs, func(l []Req) bool {
-				x := Case{Shards: cs.Shards, Store: cs.Store, Ops: append([]Op{}, cs.Ops...)}
+				x := Case{Shards: cs.Shards, Store: cs.Store, Wire: cs.Wire, Ops: append([]Op{}, cs.Ops...)}
 				x.Ops[k].Reqs = l
 				return fails(c, x, class)
 			})
@@ -430,7 +510,8 @@ func runOne(c *rig.Ctx, cs Case, origin string) {
 		"hit:store-dropped-by-leaderCheck": f.storeDropped, "hit:instance-returned-after-reclaim": f.returned,
 		"hit:request-rejected(notLeader/noStore/noLock/notFound/typeMismatch)": f.rejected, "hit:RequestIDTooOld": f.tooOld,
 		"hit:k8s-delete-refused-by-api-condition-kept": f.refused, "hit:k8s-out-of-band-api-delete": f.oob,
-		"hit:k8s-reclaimed-although-api-said-NotFound": f.reclaimAfterNotFound, "hit:burst-left-a-state": f.burstState} {
+		"hit:k8s-reclaimed-although-api-said-NotFound": f.reclaimAfterNotFound, "hit:burst-left-a-state": f.burstState,
+		"hit:wire-report-or-acquire-served-by-the-real-handlers": f.wireServed, "hit:wire-request-refused-before-the-limiter(400/client)": f.wireRefused} {
 		if b {
 			c.Count(name)
 		}
@@ -441,7 +522,7 @@ func runOne(c *rig.Ctx, cs Case, origin string) {
 	}
 	if v.kind == "judge" && v.step > 0 && v.step+1 < len(cs.Ops) {
 		// nothing after the op the judge fired at matters
-		if cut := (Case{Shards: cs.Shards, Store: cs.Store, Ops: cs.Ops[:v.step+1]}); fails(c, cut, v.class) {
+		if cut := (Case{Shards: cs.Shards, Store: cs.Store, Wire: cs.Wire, Ops: cs.Ops[:v.step+1]}); fails(c, cut, v.class) {
 			cs = cut
 		}
 	}
@@ -468,9 +549,10 @@ func main() {
 
 	rig.Main("C18", func(c *rig.Ctx) {
 		c.SetRule("a history of 15-90 generator steps over 1-3 shards, 1-3 upstreams (1-4 global max-in-flight / token-bucket schemas) and 2-7 gateway identities " +
-			"(ordinary, with ':', >63 bytes, colliding under ':'->'-', empty, 'state'): heartbeat / report / acquire / BURST of 2-8 parallel acquires of one instance / " +
+			"(ordinary, with ':' '/' '.' '_' upper case, >63 bytes, Unicode, ids equal up to ':'->'-' / case / '_' rewriting, empty, 'state'): heartbeat / report / acquire / BURST of 2-8 parallel acquires of one instance / " +
 			"time-out pass at a scripted clock / unknown pass / leadership flaps + leaderCheck / list, unlist, upstream events; every third history runs on the API-BACKED " +
-			"store (write-through, fake API) with deletes of chosen conditions failing (unavailable / answer lost) and out-of-band API deletions; every eighth is a join " +
+			"store (write-through, fake API) with deletes of chosen conditions failing (unavailable / answer lost) and out-of-band API deletions; every fourth sends its " +
+			"heartbeats / reports / acquires through the generated client, the HTTP wire format and the real handler chain (BuildHandlerChain) instead of calling the limiter; every eighth is a join " +
 			"storm (12-41 instances each joining with 8 parallel first acquires, then dying; some return); run on the real rateLimiter and on the model, the whole recorded " +
 			"state (the store's cache) compared and judged after every op, the API contents judged against the cache; distinct = distinct canonical history; " +
 			"non-trivial = on the real code a clean-up pass removed every recorded trace (condition or in-flight state) of at least one instance")
@@ -489,6 +571,7 @@ func main() {
 			return
 		}
 		c.SetExtra("timeoutMs", consts.TimeoutMs)
+		timeoutMs = consts.TimeoutMs
 
 		if c.Replay != "" {
 			var cs Case
@@ -534,22 +617,33 @@ func main() {
 			}
 		}
 
-		n := c.Budget(1000, 40000)
+		n := c.Budget(1000, 30000)
 		for k := 0; k < n && c.NFailures() < 3; k++ {
 			size := 15 + c.Rng.Intn(40)
 			if k%5 == 0 {
 				size = 50 + c.Rng.Intn(40)
 			}
 			k8s := k%3 == 1
+			wireMode := k%4 == 2
+			origin := ""
+			if wireMode {
+				origin = "wire:"
+			}
+			if k8s {
+				origin += "k8s:"
+			}
 			if k%8 == 7 {
-				runOne(c, genStorm(c.Rng, consts.TimeoutMs, k8s), "storm:")
+				cs := genStorm(c.Rng, consts.TimeoutMs, k8s)
+				cs.Wire = k%16 == 15
+				if cs.Wire {
+					origin = "wire:" + origin
+				}
+				runOne(c, cs, origin+"storm:")
 				continue
 			}
-			origin := ""
-			if k8s {
-				origin = "k8s:"
-			}
-			runOne(c, genCase(c.Rng, size, consts.TimeoutMs, k8s), origin)
+			cs := genCase(c.Rng, size, consts.TimeoutMs, k8s)
+			cs.Wire = wireMode
+			runOne(c, cs, origin)
 		}
 	})
 }
